@@ -320,6 +320,11 @@ func readNextAtV2(r *MMapReader, offset uint64) ([]byte, error) {
 		return nil, fmt.Errorf("failed reading record header at offset %d in mmap reader for '%s': %w", offset, r.path, err)
 	}
 
+	err = r.checkRecordFits(offset, int(headerByteReader.Count()), payloadSizeUncompressed, payloadSizeCompressed, false)
+	if err != nil {
+		return nil, &recordHeaderError{fmt.Sprintf("failed reading record header at offset %d in mmap reader for '%s': %v", offset, r.path, err), err}
+	}
+
 	expectedBytesRead, pooledRecordBuf := allocateRecordBufferPooled(r.bufferPool, r.header, payloadSizeUncompressed, payloadSizeCompressed)
 	defer r.bufferPool.Put(pooledRecordBuf)
 
@@ -376,6 +381,11 @@ func readNextAtV3(r *MMapReader, offset uint64) ([]byte, error) {
 
 	headerByteReader := NewCountingByteReader(bufio.NewReader(bytes.NewReader(headerBufPooled[:numRead])))
 	payloadSizeUncompressed, payloadSizeCompressed, recordNil, err := readRecordHeaderV3(headerByteReader)
+	if err != nil {
+		return nil, &recordHeaderError{fmt.Sprintf("failed reading record header at offset %d in mmap reader for '%s': %v", offset, r.path, err), err}
+	}
+
+	err = r.checkRecordFits(offset, int(headerByteReader.Count()), payloadSizeUncompressed, payloadSizeCompressed, recordNil)
 	if err != nil {
 		return nil, &recordHeaderError{fmt.Sprintf("failed reading record header at offset %d in mmap reader for '%s': %v", offset, r.path, err), err}
 	}
